@@ -6,6 +6,7 @@ ASSUMPTIONS = {
     'A-tracing': 'dropped tracing statements and span guards do not affect control or data flow',
     'A-pin': "pin-project's project() is field access; Pin<&mut Self> methods are &mut self methods",
     'A-core': 'vstd specifications of core/std (Option, Result, HashMap incl. Entry API) and the assume_specifications in prelude/base.rs for Poll and the ? operator',
+    'A-hashmap-iter': 'std HashMap::drain yields every entry exactly once (some order) and leaves the map empty; HashMap::values yields the value of every entry exactly once (prelude/hash_iter.rs); rule R17 writes `for`/`Iterator::map`/`Iterator::for_each` out by their definitions in core',
     'A-hashmap': 'FnvHashMap behaves as std HashMap (vstd spec); HashMap::shrink_to only changes capacity (Compact::compact itself is under contract in unit util_compact: contents unchanged; the table units call it through the frame-only model compact_map, which states exactly that contract)',
     'A-delayqueue': 'tokio-util DelayQueue: fresh key on insert; remove panics on an absent key; insert panics for timeout > 2^36-1 ms (and the wheel is polled often enough that its elapsed time is current); poll_expired never yields before the delay elapsed, each armed key at most once, Pending registers the waker, Ready(None) iff empty',
     'A-oneshot': 'tokio oneshot: send consumes the sender and hands the value to the paired receiver or returns it; close() happens-before a later is_closed()',
@@ -93,11 +94,11 @@ prop('C07', SERVER_TOO, title='Deadlines propagate across hops without stretchin
      level_note='Codecs carrying a Duration faithfully and serde_derive\'s default handling are assumed (A-codec).',
      not_covered='context::current() inside a handler without an OpenTelemetry layer; the derived Context::deserialize with the field omitted')
 prop('C09', SERVER_TOO, title='Transport failures are contained and reported',
-     verus=['client'], native=['complete_all_bounded', 'drop_aborts_bounded', 'server_wire_bounded', 'client_faults_bounded', 'server_faults_bounded'], technique=TECH_V + '; bounded native stand-ins for the two functions cut to assumed contracts; fault-injection replay searches on both ends as a source of concrete failing inputs (never counted as proved)',
-     assumptions=COMMON_V + ['A-sink', 'A-oneshot', 'A-mpsc', 'A-delayqueue'],
+     verus=['client'], native=['complete_all_bounded', 'drop_aborts_bounded', 'server_wire_bounded', 'client_faults_bounded', 'server_faults_bounded'], technique=TECH_V + ' (complete_all_requests and Drop for the server table included: their iterator chains are written out as the loops they denote, rule R17, and proved with loop invariants); fault-injection replay searches on both ends and two small table enumerations as a source of concrete failing inputs (never counted as proved)',
+     assumptions=COMMON_V + ['A-sink', 'A-oneshot', 'A-mpsc', 'A-delayqueue', 'A-hashmap-iter', 'A-abortable'],
      level_text='Proof that each transport wrapper tags a failure with its activity and that the tag survives `?` up to run(); that a failed request write removes and fails only that call and is not fatal; that start_send is never reached after a reported failure (its precondition); panic freedom of every extracted function (expect/unwrap/DelayQueue preconditions discharged).',
-     level_note='shut_down_with_terminal_error is under contract (every queued caller with an open receiver is delivered the channel error; only channel errors are delivered; the transport is not touched again) with complete_all_requests cut to an ASSUMED contract (R11: impl Iterator over a draining map). Server: BaseChannel/Requests error tagging and containment are proved in unit server.',
-     not_covered='RequestDispatch::poll (dyn-Any downcast of the stored terminal error), complete_all_requests itself, Drop for server::InFlightRequests (aborts on channel drop)')
+     level_note='shut_down_with_terminal_error is under contract (every queued caller with an open receiver is delivered the channel error; only channel errors are delivered; the transport is not touched again) and calls complete_all_requests, which is proved in the same unit from its real body (R17: `drain().map(closure)` consumed by an empty-bodied `for` = a loop over the drained entries; loop invariant: one delivery of a value of the closure per drained entry; the FnMut bound is narrowed to Fn, which covers the only call site). Drop for server::InFlightRequests is proved likewise (one abort per tracked handle, nothing else). Server: BaseChannel/Requests error tagging and containment are proved in unit server.',
+     not_covered='the dyn-Any downcast of the stored terminal error in RequestDispatch::poll (A-downcast); that Rust runs Drop for server::InFlightRequests when the channel is dropped (language semantics); HashMap::drain / values yield every entry exactly once (A-hashmap-iter)')
 prop('C10', SERVER_TOO, NATIVE_SERVER, title='Shutdown is orderly: queued work is drained first',
      verus=['client'], native=['client_wire_bounded'], technique=TECH_V,
      assumptions=COMMON_V + ['A-sink', 'A-mpsc', 'A-oneshot', 'A-delayqueue'],
